@@ -91,7 +91,7 @@ def gen_op(rng, op, sizes, kinds, st):
         return "%s %d %d %s" % ("z" if rng.chance(1, 12) else "a", rng.choice(sizes), code, k)
     if op == "f":
         st["live"] = max(0, st["live"] - 1)
-        return "f %d" % rng.below(1 << 16)
+        return "%s %d" % ("F" if rng.chance(1, 8) else "f", rng.below(1 << 16))
     if op == "r":
         return "r %d %d" % (rng.below(1 << 16), rng.choice(sizes) if rng.chance(3, 4) else rng.choice(FIX + BND))
     if op == "c":
